@@ -1,6 +1,7 @@
 package main
 
 import (
+	"fmt"
 	"go/token"
 	"go/types"
 	"sort"
@@ -1129,5 +1130,283 @@ func ruleReplayWindowWordAligned(c *Ctx, r *Report) {
 		ok2 := trace(call.Call.Args[0], 0)
 		r.Check(ok2, rule, short(s.Fn), c.ipos(call), "the window size handed to the replay detector is a multiple of 64", "the replay detector is created with a window size that need not be a multiple of 64 ("+why+"): for sizes with size%64 above 32 the dependency's bitmap forgets record numbers it has accepted each time the window advances, and those records are delivered a second time when the network repeats them")
 	}
+	r.Floor(rule, n, 1)
+}
+
+// ruleResumableSessionsUseEMS (C11): "a side that requires extended master secret never completes
+// without it" includes the abbreviated handshake, which is keyed from a stored master secret
+// whatever the new hellos say. The session record has no room for how its secret was derived, so
+// the library keeps only sessions made with the extension, and resumes one only when the new
+// hellos negotiate the extension again (RFC 7627 5.3): with State12.ExtendedMasterSecret false,
+// no call of the SetSession hook is reachable, the server's resume helper cannot answer with the
+// abbreviated flight, and the client does not enter its resumption path.
+func ruleResumableSessionsUseEMS(c *Ctx, r *Report) {
+	const rule = "resumable-sessions-use-ems"
+	noEMS := atomAssume{mLoad(tSt12, "ExtendedMasterSecret"), vBool(false)}
+	n := 0
+	// (a) stores
+	for _, fn := range c.fnsOfPkg(pkgF12) {
+		for _, b := range fn.Blocks {
+			for _, in := range b.Instrs {
+				call, ok := in.(*ssa.Call)
+				if !ok || call.Call.IsInvoke() || call.Call.StaticCallee() != nil {
+					continue
+				}
+				if _, f, _, okF := fieldLoad(call.Call.Value); !okF || f != "SetSession" {
+					continue
+				}
+				n++
+				r.Sites += len(fn.Blocks)
+				w := (&Walk{Fn: fn, Assume: assumeAll(noEMS)}).FromEntry()
+				r.Check(!w.Reached[call] && !w.overflow, rule, short(fn)+":store", c.ipos(call), "a session is stored only when its master secret was derived with the extension", "a session whose master secret was derived without extended_master_secret is stored for resumption: a later handshake in which both sides require the extension resumes it, the hellos carry the extension, both policy checks pass, and the connection is keyed from the legacy master secret")
+			}
+		}
+	}
+	// (b) the server's resume helper
+	fl := c.enumConsts(pkgF12, "Flight")
+	if hr := c.need(r, rule, pkgF12+".handleHelloResume"); hr != nil {
+		n++
+		r.Sites += len(hr.Blocks)
+		w := (&Walk{Fn: hr, Assume: assumeAll(noEMS)}).FromEntry()
+		abbreviated := ""
+		for _, ro := range w.Returns {
+			if ro.Vals[0] == vInt(fl["Flight4b"]) {
+				abbreviated = c.ipos(ro.Ret)
+			}
+		}
+		r.Check(abbreviated == "" && !w.overflow, rule, short(hr)+":resume", c.pos(hr.Pos()), "no abbreviated handshake for a ClientHello that does not negotiate the extension", "the server resumes a stored session ("+abbreviated+") although the new ClientHello does not negotiate extended_master_secret")
+	}
+	// (c) the client's resumption path
+	for _, s := range c.CallsToName(pkgF12 + ".handleResumption") {
+		call, ok := s.Call.(*ssa.Call)
+		if !ok {
+			continue
+		}
+		n++
+		r.Sites += len(s.Fn.Blocks)
+		w := (&Walk{Fn: s.Fn, Assume: assumeAll(noEMS)}).FromEntry()
+		r.Check(!w.Reached[call] && !w.overflow, rule, short(s.Fn)+":resume", c.ipos(call), "the client follows a resuming ServerHello only if it carries the extension", "the client follows a ServerHello that resumes its stored session although that ServerHello does not carry extended_master_secret")
+	}
+	r.Floor(rule, n, 4)
+}
+
+// ruleReassemblySeparatesEpochs (C12): "the receiver reconstructs exactly the original message ...
+// whatever the ... interleaving of fragments of different messages": a fragment that arrives in an
+// unprotected epoch-0 record and claims the message sequence of a message the peer is sending in
+// a protected epoch is a fragment of a different message. The reassembly buffer must keep the two
+// apart: the record epoch is part of the key of the reassembly entry, or the epoch of an arriving
+// fragment is compared with the epoch of what is stored before it is filed. (Decided as a
+// structural necessary condition; the current code does neither - see known findings.)
+func ruleReassemblySeparatesEpochs(c *Ctx, r *Report) {
+	const rule = "reassembly-separates-epochs"
+	fn := c.need(r, rule, "(*internal/fragmentbuffer.FragmentBuffer).pushHandshakeFragments")
+	if fn == nil {
+		return
+	}
+	separated := false
+	for _, u := range c.unitFuncs(fn) {
+		r.Sites += len(u.Blocks)
+		for _, b := range u.Blocks {
+			for _, in := range b.Instrs {
+				switch x := in.(type) {
+				case *ssa.BinOp:
+					for _, side := range []ssa.Value{x.X, x.Y} {
+						if _, f, _, ok := fieldLoad(stripConv(side)); ok && f == "Epoch" {
+							switch x.Op {
+							case token.EQL, token.NEQ, token.LSS, token.LEQ, token.GTR, token.GEQ:
+								separated = true
+							}
+						}
+					}
+				case *ssa.Lookup:
+					// a map keyed by something that includes the epoch
+					if mt, ok := x.X.Type().Underlying().(*types.Map); ok {
+						if st, ok := mt.Key().Underlying().(*types.Struct); ok {
+							for i := 0; i < st.NumFields(); i++ {
+								if strings.EqualFold(st.Field(i).Name(), "epoch") {
+									separated = true
+								}
+							}
+						}
+					}
+				}
+			}
+		}
+	}
+	r.Check(separated, rule, short(fn), c.pos(fn.Pos()), "fragments are filed by record epoch as well as message sequence", "fragments are filed under their message sequence alone and the epoch of the record they came in is never looked at: an unprotected epoch-0 fragment that anyone can send is merged into - or takes the place of - the message the peer sends under protection with the same message sequence, the forged message is surfaced, the delivery cursor moves past it, and the genuine message and all its retransmissions are dropped as retransmissions")
+}
+
+// ruleMTUFitsReceiveBuffer (C12): "for every message length and MTU ... the receiver reconstructs":
+// a fragment is cut to the configured MTU, the receiver reads datagrams into a buffer of fixed size;
+// an MTU the library accepts must not produce datagrams its own receiver truncates. The function
+// that normalises the configured MTU (or the option that sets it) bounds it from above by a
+// constant no larger than the receive buffer. (The current code has no upper bound - see known
+// findings.)
+func ruleMTUFitsReceiveBuffer(c *Ctx, r *Report) {
+	const rule = "mtu-fits-receive-buffer"
+	bufSize := int64(0)
+	for _, fn := range c.Fns {
+		if !inModule(fn) || fn.Pkg == nil || fn.Pkg.Pkg.Name() != "dtls" {
+			continue
+		}
+		for _, b := range fn.Blocks {
+			for _, in := range b.Instrs {
+				if ms, ok := in.(*ssa.MakeSlice); ok && strings.Contains(short(fn), "poolReadBuffer") || ok && fn.Name() == "init" {
+					_ = ms
+				}
+			}
+		}
+	}
+	if pk := c.Pkg(""); pk != nil {
+		if k, ok := pk.Members["inboundBufferSize"].(*ssa.NamedConst); ok {
+			if v, okV := constInt(k.Value); okV {
+				bufSize = v
+			}
+		}
+	}
+	if bufSize == 0 {
+		r.Unk(rule, "inboundBufferSize", "", "the size of the receive buffer was not found")
+		return
+	}
+	bounded := false
+	var where *ssa.Function
+	for _, name := range []string{"dtls.effectiveMTU", "dtls.WithMTU", "dtls.WithMTU$1"} {
+		fn := c.Fn(name)
+		if fn == nil {
+			continue
+		}
+		if where == nil {
+			where = fn
+		}
+		r.Sites += len(fn.Blocks)
+		for _, b := range fn.Blocks {
+			for _, in := range b.Instrs {
+				bo, ok := in.(*ssa.BinOp)
+				if !ok {
+					continue
+				}
+				switch bo.Op {
+				case token.GTR, token.GEQ, token.LSS, token.LEQ:
+					for _, pr := range [][2]ssa.Value{{bo.X, bo.Y}, {bo.Y, bo.X}} {
+						if _, isP := stripConv(pr[0]).(*ssa.Parameter); isP {
+							if k, isK := constInt(pr[1]); isK && k > 1000 && k <= bufSize {
+								bounded = true
+							}
+						}
+					}
+				}
+			}
+		}
+	}
+	if where == nil {
+		r.Unk(rule, "dtls.effectiveMTU", "", "the function that normalises the configured MTU was not found")
+		return
+	}
+	r.Check(bounded, rule, short(where)+":upper-bound", c.pos(where.Pos()), fmt.Sprintf("the configured MTU is bounded by the receive buffer (%d bytes)", bufSize), fmt.Sprintf("any positive MTU is accepted, but the receiver reads datagrams into a fixed buffer of %d bytes: with an MTU above %d (the buffer less the 25 bytes of record and handshake header) every full-size fragment is truncated on receipt, refused, and refused again on every retransmission, so a message longer than the MTU is never reassembled and two endpoints of this library configured alike cannot complete a handshake", bufSize, bufSize-25))
+}
+
+// ruleImplicitHandshakeFollowsDeadline (C16): "deadlines interrupt blocked calls". Read and Write
+// start with an implicit handshake; while that handshake waits for a silent peer the call is a
+// blocked call like any other, so the handshake has to run under a context the read / write
+// deadline cancels. The context-less Handshake() there leaves the deadline without effect until
+// the handshake ends by itself. (The current code calls Handshake() - see known findings.)
+func ruleImplicitHandshakeFollowsDeadline(c *Ctx, r *Report) {
+	const rule = "implicit-handshake-follows-deadline"
+	n := 0
+	for _, inst := range []struct{ fn, deadline string }{
+		{"(*dtls.Conn).Read", "readDeadline"}, {"(*dtls.Conn).Write", "writeDeadline"},
+	} {
+		fn := c.need(r, rule, inst.fn)
+		if fn == nil {
+			continue
+		}
+		r.Sites += len(fn.Blocks)
+		for _, cl := range findCalls(fn, nameIs("(*dtls.Conn).Handshake", "(*dtls.Conn).HandshakeContext")) {
+			n++
+			good := false
+			if calleeName(&cl.Call) == "(*dtls.Conn).HandshakeContext" && len(cl.Call.Args) == 2 {
+				for _, l := range append(c.OriginsThrough(cl.Call.Args[1], 0), cl.Call.Args[1]) {
+					if _, f, _, ok := fieldLoad(l); ok && f == inst.deadline {
+						good = true
+					}
+					if call, ok := l.(*ssa.Call); ok {
+						for _, a := range call.Call.Args {
+							for _, l2 := range append(c.Origins(a, 0), a) {
+								if _, f, _, ok := fieldLoad(l2); ok && f == inst.deadline {
+									good = true
+								}
+							}
+						}
+					}
+				}
+			}
+			r.Check(good, rule, short(fn)+":handshake", c.ipos(cl), "the implicit handshake runs under a context the "+inst.deadline+" cancels", "the implicit handshake of "+fn.Name()+" runs without a context (Handshake()): with a peer that stays silent the call retransmits for ever and a "+inst.deadline+" set before or during the call never interrupts it")
+		}
+	}
 	r.Floor(rule, n, 2)
+}
+
+// ruleEarlyRecordSurvivesEpochChange (C06): "a record that arrives fewer sequence numbers behind
+// the newest accepted record of its epoch than the window is delivered exactly once" - also the
+// first record of a new epoch when it overtakes the datagram that carries ChangeCipherSpec. Such a
+// record is queued; the queue has to be replayed at some point after the peer's ChangeCipherSpec
+// moved the read epoch: in the function that moves it, in a DTLS 1.2 flight parser behind its pull
+// of the peer's Finished, in the finished state of the DTLS 1.2 state machine, or in the read
+// loop once the handshake is established. (The current code replays the queue only before the
+// epoch change - see known findings.)
+func ruleEarlyRecordSurvivesEpochChange(c *Ctx, r *Report) {
+	const rule = "early-record-survives-epoch-change"
+	ccs := c.need(r, rule, "(*dtls.Conn).handleChangeCipherSpecRecord")
+	if ccs == nil {
+		return
+	}
+	isDrain := func(cl *ssa.Call) bool {
+		nm := calleeName(&cl.Call)
+		return strings.HasSuffix(nm, "dtls.Conn).handleQueuedPackets") || strings.HasSuffix(nm, ".HandleQueuedPackets")
+	}
+	where := ""
+	// in the function that moves the epoch, behind the move
+	for _, mv := range findCalls(ccs, nameHasSuffix("dtls.Conn).setRemoteEpoch")) {
+		for _, b := range ccs.Blocks {
+			for _, in := range b.Instrs {
+				if cl, ok := in.(*ssa.Call); ok && isDrain(cl) && instrReaches(mv, cl) {
+					where = c.ipos(cl)
+				}
+			}
+		}
+	}
+	// behind the pull of the peer's Finished in a DTLS 1.2 parser
+	for _, fn := range c.fnsOfPkg(pkgF12) {
+		r.Sites += len(fn.Blocks)
+		var pulls []*ssa.Call
+		for _, cl := range findCalls(fn, nameHasSuffix("Cache).FullPullMapItems")) {
+			if rl, ok := c.ruleList(cl.Call.Args[len(cl.Call.Args)-1], 0); ok && strings.Contains(rulesString(rl), "Finished@E+1") {
+				pulls = append(pulls, cl)
+			}
+		}
+		for _, p := range pulls {
+			for _, b := range fn.Blocks {
+				for _, in := range b.Instrs {
+					if cl, ok := in.(*ssa.Call); ok && isDrain(cl) && instrReaches(p, cl) && instrDominates(p, cl) {
+						where = c.ipos(cl)
+					}
+				}
+			}
+		}
+	}
+	// in the finished state of the DTLS 1.2 machine, or in the read loop under "established"
+	for _, name := range []string{"(*" + pkgHS + ".fsm12).finish", "(*dtls.Conn).readAndBuffer", "(*dtls.Conn).readLoop"} {
+		if fn := c.Fn(name); fn != nil {
+			for _, u := range c.unitFuncs(fn) {
+				for _, b := range u.Blocks {
+					for _, in := range b.Instrs {
+						if cl, ok := in.(*ssa.Call); ok && isDrain(cl) {
+							where = c.ipos(cl)
+						}
+					}
+				}
+			}
+		}
+	}
+	r.Check(where != "", rule, short(ccs)+":queue-replayed", c.pos(ccs.Pos()), "records queued for the next epoch are replayed after the read epoch moved ("+where+")", "records that were queued because they arrived ahead of the peer's ChangeCipherSpec are replayed only by flight parsers that run before the epoch change; nothing replays the queue once ChangeCipherSpec and Finished have been processed, so an application record that overtakes the datagram carrying them - a plain reordering of two consecutive datagrams - is never delivered")
 }
